@@ -14,7 +14,8 @@ def rmSchema (f : String) (s : Schema) : Schema :=
   | none => s
   | some i => eraseSchemaField s i
 
-/-- `removeMapField f` then `removeFieldFromPassers f`, in one pass -/
+/-- `removeMapField f` / `removeGroupByField f` / `removeUnusedDatasourceField f`, then `removeFieldFromPassers f`, in
+    one pass (each rule only ever meets its own kind of node holding `f`: `NoMapHas` / `NoGroupByHas`) -/
 def rmPlan (f : String) : Plan → Option Plan
   | .leaf s k => some (.leaf (rmSchema f s) k)
   | .un s k src =>
@@ -26,6 +27,10 @@ def rmPlan (f : String) : Plan → Option Plan
         match eraseAt es i with
         | some es' => some (.un (eraseSchemaField s i) (.map es') src')
         | none => none
+      | .groupBy aggs aggExprs key kti trig, some i =>
+        match eraseAt aggExprs ((i : Int) - key.length), eraseAt aggs ((i : Int) - key.length) with
+        | some aggExprs', some aggs' => some (.un (eraseSchemaField s i) (.groupBy aggs' aggExprs' key kti trig) src')
+        | _, _ => none
       | _, _ => some (.un (rmSchema f s) k src')
   | .bin s k l r =>
     match rmPlan f l, rmPlan f r with
@@ -77,16 +82,25 @@ theorem Good.allNodup {db : Db} : ∀ {p : Plan} {outer : List String}, Good db 
   | .bin _ (.sjoin _ _) _ _, _, h => ⟨h.1, Good.allNodup h.2.1, Good.allNodup h.2.2.1⟩
   | .bin _ (.ojoin _ _ _ _) _ _, _, h => ⟨h.1, Good.allNodup h.2.1, Good.allNodup h.2.2.1⟩
 
-/-- the two passes of one removal step are the single pass `rmPlan` -/
-theorem twoPass (f : String) : ∀ (p : Plan), AllNodup p →
+/-- no group-by node declares the field -/
+def NoGroupByHas (f : String) : Plan → Prop
+  | .leaf _ _ => True
+  | .un s (.groupBy _ _ _ _ _) src => f ∉ s.fields ∧ NoGroupByHas f src
+  | .un _ _ src => NoGroupByHas f src
+  | .bin _ _ l r => NoGroupByHas f l ∧ NoGroupByHas f r
+
+/-- the two passes of one `RemoveUnusedMapFields` step are the single pass `rmPlan` -/
+theorem twoPass (f : String) : ∀ (p : Plan), AllNodup p → NoGroupByHas f p →
     (match mapNodes (removeMapFieldLocal f) p with
      | some p1 => removeFieldFromPassers f p1
      | none => none) = rmPlan f p
-  | .leaf s k, _ => by
+  | .leaf s k, _, _ => by
     simp only [mapNodes, removeMapFieldLocal, removeFieldFromPassers, passersLocal_eq, rmPlan]
     rfl
-  | .un s k src, h => by
-    have ih := twoPass f src h.2
+  | .un s k src, h, hgb => by
+    have hgbsrc : NoGroupByHas f src := by
+      cases k <;> simp only [NoGroupByHas] at hgb <;> first | exact hgb.2 | exact hgb
+    have ih := twoPass f src h.2 hgbsrc
     simp only [mapNodes, rmPlan]
     cases h1 : mapNodes (removeMapFieldLocal f) src with
     | none =>
@@ -132,7 +146,10 @@ theorem twoPass (f : String) : ∀ (p : Plan), AllNodup p →
         | none => rfl
         | some src' => simp only [passersLocal_eq, schema_un, Plan.withSchema]
       | groupBy a b c d e =>
-        simp only [removeMapFieldLocal, removeFieldFromPassers, mapNodes, ih]
+        subst hk
+        simp only [NoGroupByHas] at hgb
+        have hi : lastIndexOf f s.fields = none := lastIndexOf_none hgb.1
+        simp only [removeMapFieldLocal, removeFieldFromPassers, mapNodes, ih, hi]
         cases rmPlan f src with
         | none => rfl
         | some src' => simp only [passersLocal_eq, schema_un, Plan.withSchema]
@@ -151,9 +168,10 @@ theorem twoPass (f : String) : ∀ (p : Plan), AllNodup p →
         cases rmPlan f src with
         | none => rfl
         | some src' => simp only [passersLocal_eq, schema_un, Plan.withSchema]
-  | .bin s k l r, h => by
-    have ihl := twoPass f l h.2.1
-    have ihr := twoPass f r h.2.2
+  | .bin s k l r, h, hgb => by
+    simp only [NoGroupByHas] at hgb
+    have ihl := twoPass f l h.2.1 hgb.1
+    have ihr := twoPass f r h.2.2 hgb.2
     simp only [mapNodes, rmPlan]
     cases h1 : mapNodes (removeMapFieldLocal f) l with
     | none =>
